@@ -137,6 +137,14 @@ func (e *FuncEnc) encodeInstr(in ssa.Instruction) {
 	}
 }
 
+func isConstLike(v ssa.Value) bool {
+	switch v.(type) {
+	case *ssa.Const, *ssa.Function, *ssa.Global:
+		return true
+	}
+	return false
+}
+
 func fieldName(x *ssa.FieldAddr) string {
 	st := x.X.Type().Underlying().(*types.Pointer).Elem().Underlying().(*types.Struct)
 	return st.Field(x.Field).Name()
@@ -284,6 +292,9 @@ func (e *FuncEnc) encodeLookup(x *ssa.Lookup) {
 		has = e.define("has", "Bool", and(not(eq(m, "0")), has))
 		zero := e.D.Zero(t.Elem())
 		val = e.define("mval", e.D.SortOf(t.Elem()), ite(has, val, zero))
+		if _, isSl := t.Elem().Underlying().(*types.Slice); isSl {
+			e.assume(e.curReach, e.sliceWF(val))
+		}
 		e.mapValueFacts(val, has, t)
 		if x.CommaOk {
 			e.tuple[x] = []string{val, has}
@@ -313,6 +324,20 @@ func (e *FuncEnc) mapValueFacts(val, has string, t *types.Map) {
 func (e *FuncEnc) encodeUnOp(x *ssa.UnOp) {
 	switch x.Op {
 	case token.MUL:
+		if al, ok := x.X.(*ssa.Alloc); ok {
+			if st, ok := stableCell(al); ok && st.Block().Dominates(x.Block()) && (st.Block() != x.Block() || instrIndex(st) < instrIndex(x)) {
+				if _, have := e.val[st.Val]; have || isConstLike(st.Val) {
+					e.val[x] = e.v(st.Val)
+					return
+				}
+			}
+		}
+		if fv, ok := x.X.(*ssa.FreeVar); ok {
+			if s, ok := e.stableFV[fv]; ok {
+				e.val[x] = s
+				return
+			}
+		}
 		addr := e.v(x.X)
 		if !nonNilSyntactic(x.X) {
 			e.safety("nil", e.describe(x.X), not(eq(addr, "0")), x.Pos())
@@ -349,6 +374,11 @@ func (e *FuncEnc) loadedFacts(x *ssa.UnOp, v string) {
 		if b := t.Underlying().(*types.Basic); b.Info()&types.IsInteger != 0 {
 			lo, hi := intBounds(b.Kind())
 			e.assume(e.curReach, fmt.Sprintf("(and (<= %s %s) (<= %s %s))", lo, v, v, hi))
+		}
+	}
+	if g, ok := x.X.(*ssa.Global); ok && e.W != nil && e.W.GlobalFact != nil {
+		if f := e.W.GlobalFact(e, g, v); f != "" {
+			e.assume(e.curReach, f)
 		}
 	}
 	if ia, ok := x.X.(*ssa.IndexAddr); ok && e.W != nil && e.W.ElemFact != nil {
